@@ -9,10 +9,10 @@ META = {
             'Observed: worker death, panic site, CPU time, peak allocation, Result vs diagnostics. distinct = hash(input bytes, tool, game); non-trivial = input has >= 20 bytes',
     'assumptions': ['the in-process pipeline wrappers are the CLI pipelines (a sample is re-executed through the real vtruth process and compared)',
                     '"loops forever" is restated as > 20 CPU-seconds for one input'],
-    'floors': {'generated_valid_accepted': 20, 'mutants': 100, 'hostile': 20, 'mapfile_cases': 20, 'typed_matrix': 200},
+    'floors': {'generated_valid_accepted': 20, 'mutants': 100, 'hostile': 20, 'mapfile_cases': 20, 'typed_matrix': 200, 'intrinsic_abi_cells': 500},
     'profiles': {'quick': ('dev',), 'thorough': ('dev', 'release')},
 }
-SIZES = {'quick': 6000, 'thorough': 150000}
+SIZES = {'quick': 8500, 'thorough': 150000}
 
 MINI = {
     'anm': ('''entry { path: "a.png", has_data: false, img_width: 64, img_height: 64, img_format: 3, sprites: {sprite0: {id: 0, x: 0.0, y: 0.0, w: 1.0, h: 1.0}} }
@@ -170,6 +170,22 @@ def run_shard(ctx):
             if k % ctx.nshards == ctx.shard and (ctx.tier != 'quick' or (k // ctx.nshards) % 2 == (0 if tool == 'anm' else 1)):
                 _w, text = TM.wrap(r, stmt, '$REG[10002]')
                 plan.append(('typed-matrix', tool, MINI[tool][1], (MINI[tool][0] % text).encode(), mk + '\n!ins_signatures\n900 S\n901 f\n'))
+    # intrinsic ABI matrix: every intrinsic kind declared on every signature over {o, t, S, f, E} of length <= 3 (and a few longer ones):
+    # validation of a user mapfile must end in a diagnostic or a working table, never in a crash
+    import itertools
+    INTR = ['Jmp()', 'Interrupt()', 'AssignOp(op="="; type="int")', 'AssignOp(op="+="; type="float")', 'BinOp(op="+"; type="int")', 'BinOp(op="<"; type="float")', 'UnOp(op="-"; type="int")',
+            'UnOp(op="sin"; type="float")', 'CountJmp()', 'CountJmp(op=">")', 'CondJmp(op="=="; type="int")', 'CondJmp(op="<"; type="float")', 'DedicatedCmp(type="int")', 'DedicatedCmpJmp(op="!=")',
+            'CallEosd()', 'CallReg()']
+    sigs = [''.join(t) for n in range(0, 4) for t in itertools.product('otSf', repeat=n)] + ['SSot', 'ffto', 'otSS', 'Sfot', 'oSSt', 'tSSo', 'E(imm)S(imm)f(imm)', 'ESf', 'S(imm)', 'oo', 'tt', 'ott', 'oot']
+    k = 0
+    for tool, mk, game in (('anm', '!anmmap', 'th12'), ('ecl', '!eclmap', 'th06'), ('ecl', '!eclmap', 'th08')):
+        for intr in INTR:
+            for sg in sigs:
+                k += 1
+                if k % ctx.nshards != ctx.shard: continue
+                if ctx.tier == 'quick' and (k // ctx.nshards) % 3 != (ctx.seed % 3): continue
+                body = 'ins_900();' if tool == 'anm' else 'ins_900();'
+                plan.append(('intrinsic-abi', tool, game, (MINI[tool][0] % '$REG[%d] = 3;\nlbl:\ngoto lbl;' % (10000 if game != 'th06' else -10001)).encode(), '%s\n!ins_signatures\n900 %s\n!ins_intrinsics\n900 %s\n' % (mk, sg, intr)))
     corpus_dir = os.path.join(core.VERIF, 'corpus', 'C04')
     if os.path.isdir(corpus_dir):
         for i, name in enumerate(sorted(os.listdir(corpus_dir))):
@@ -199,7 +215,7 @@ def run_shard(ctx):
                   'text': data.decode('utf-8', 'surrogateescape'), 'mapfile': mapfile, 'class': cls}
         input_id = item[8] if len(item) > 8 else None
         v = crash.judge_exec(ctx, 'C04', job, resp, len(data), '%s compile -g %s (%s input)' % (core.TOOLBIN[tool], game, cls), replay, input_id=input_id, memory_clause=False)   # (memory exhaustion is part of C16's statement, not C04's; aborts are still observed)
-        ctx.count({'generated': 'generated', 'mutant': 'mutants', 'hostile': 'hostile', 'mapfile': 'mapfile_cases', 'corpus': 'corpus', 'typed-matrix': 'typed_matrix'}[cls])
+        ctx.count({'generated': 'generated', 'mutant': 'mutants', 'hostile': 'hostile', 'mapfile': 'mapfile_cases', 'corpus': 'corpus', 'typed-matrix': 'typed_matrix', 'intrinsic-abi': 'intrinsic_abi_cells'}[cls])
         if cls == 'generated':
             ctx.count('generated_valid_accepted' if v == 'ok' else 'generated_rejected')
             if v == 'err': ctx.seen('generated_reject_reasons', '%s:%s: %s' % (item[6], game, core.norm_msg(core.headline(resp.get('diag', '')))[:70]))
